@@ -41,6 +41,18 @@ pub fn strategy() -> BoxedStrategy<Req> {
         3 => super::c06::map_input().prop_map(|b| Req::new("gp.rs_group", vec![b.to_vec()])),
         1 => u512_interesting().prop_map(|b| Req::new("gp.random", vec![b.to_vec()])),
         1 => Just(Req::new("gp.consts", vec![])),
+        2 => (scalar_canonical(), prop_oneof![any::<[u8; 16]>(), Just([0u8; 16]), Just([0xffu8; 16]), (0u8..=255).prop_map(|x| { let mut v = [0u8; 16]; v[0] = x; v })]).prop_map(|(s, v)| Req::new("gp.scalar_extras", vec![s.to_vec(), v.to_vec()])),
+        3 => (edwards_point(), edwards_point(), any::<u8>(), any::<bool>()).prop_map(|((_, p), (_, q), c, same)| Req::new("gp.point_extras", vec![p.to_vec(), if same { p.to_vec() } else { q.to_vec() }, vec![c]])),
+        // RNG streams: k undecodable / identity / zero chunks, then usable ones
+        2 => (proptest::collection::vec(prop_oneof![Just([0u8; 32]), Just({ let mut x = [0u8; 32]; x[0] = 1; x }), edwards_encoding().prop_map(|(_, e)| e), any::<[u8; 32]>()], 0..4), edwards_point(), any::<[u8; 32]>()).prop_map(|(pre, (_, p), tail)| {
+            let mut d = vec![];
+            for c in pre { d.extend_from_slice(&c); }
+            // one chunk is guaranteed to decode to a non-identity point (rejection sampling must terminate)
+            let p = if p == crate::model::ed::Aff::IDENTITY.compress() || (p[0] == 1 && p[1..31].iter().all(|x| *x == 0) && p[31] & 0x7f == 0) { crate::model::ed::Aff::basepoint().compress() } else { p };
+            d.extend_from_slice(&p);
+            d.extend_from_slice(&tail);
+            Req::new("gp.random_points", vec![d])
+        }),
         6 => encoding_strategy(),
         4 => edwards_point().prop_map(|(_, e)| Req::new("gp.cofactor", vec![e.to_vec()])),
         3 => (torsion_free_point(), torsion_free_point(), scalar_canonical()).prop_map(|(p, q, s)| Req::new("gp.subgroup_ops", vec![p.to_vec(), q.to_vec(), s.to_vec()])),
